@@ -50,6 +50,112 @@ def oracle_sweep(run, pid, variants, tier, opt="-O0"):
     return allf
 
 
+# ------------------------------------------------------------------------------------------ C03
+C03_LEVELS = [  # (module suffix, flags of the traced build (simd_shim), flags of the real-intrinsics builds)
+    ("sse2", ["-DGLM_FORCE_SSE2"], ["-msse2"]), ("sse3", ["-DGLM_FORCE_SSE3"], ["-msse3"]), ("ssse3", ["-DGLM_FORCE_SSSE3"], ["-mssse3"]),
+    ("sse41", ["-DGLM_FORCE_SSE41"], ["-msse4.1"]), ("sse42", ["-DGLM_FORCE_SSE42"], ["-msse4.2"]), ("avx", ["-DGLM_FORCE_AVX"], ["-mavx"]), ("avx2", ["-DGLM_FORCE_AVX2"], ["-mavx2"]),
+    ("fma", ["-DGLM_FORCE_AVX2", "-DGLM_FORCE_FMA"], ["-mavx2", "-mfma", "-DGLM_FORCE_FMA"]),
+    ("sse2w", ["-DGLM_FORCE_SSE2", "-DGLM_FORCE_QUAT_DATA_WXYZ"], ["-msse2", "-DGLM_FORCE_QUAT_DATA_WXYZ"]), ("avx2w", ["-DGLM_FORCE_AVX2", "-DGLM_FORCE_QUAT_DATA_WXYZ"], ["-mavx2", "-DGLM_FORCE_QUAT_DATA_WXYZ"])]
+C03_EDGES = ["sse2_pure", "sse3_sse2", "ssse3_sse3", "sse41_pure", "sse42_sse41", "avx_sse41", "avx2_avx", "fma_avx2", "pure_purew", "sse2w_sse2", "avx2w_avx2"]
+
+
+def run_C03(run):
+    T = core.TRACE
+    # 1. the generic code, and GLM's intrinsic kernels at every level, as decision trees; the SIMD traces are validated against
+    #    the same entries built with the compiler's own intrinsics (golden outputs on generated inputs)
+    def simd(level):
+        name, tfl, rfl = level
+        gold = os.path.join(run.dir, "gold_%s.bin" % name); gtxt = os.path.join(run.dir, "gold_%s.txt" % name)
+        cmd = [core.CXX, "-std=gnu++17", "-O1", "-ffp-contract=off", "-w", "-I" + os.path.join(T, "shim"), "-I" + T, "-I" + core.REPO, "-DVT_C03_ALIGNED", "-DGLM_FORCE_INTRINSICS"] + rfl + [os.path.join(T, "tr_C03.cpp"), "-o", gold]
+        rc, out, err, dt = core.sh(cmd, timeout=900)
+        if rc != 0:
+            run.broken.append({"what": "the C03 catalogue does not compile with GLM_FORCE_INTRINSICS %s (real intrinsics)" % " ".join(rfl), "detail": err[-2500:]}); return None
+        env = dict(os.environ, VERIF_SEED=str(run.seed), VT_GOLDEN_OUT=gtxt)
+        rc, out, err, dt = core.sh([gold, os.devnull, os.path.join(run.dir, "gold_%s.log" % name)], timeout=900, env=env)
+        if rc != 0 or not os.path.exists(gtxt):
+            run.broken.append({"what": "the C03 catalogue built with the real intrinsics (%s) crashed" % name, "detail": err[-1500:]}); return None
+        return run.build_trace("tr_C03", "Gen_C03_" + name, ["-DVT_SIMD", "-DGLM_FORCE_INTRINSICS"] + tfl, extra_env={"VT_GOLDEN_IN": gtxt})
+    jobs = [lambda: run.build_trace("tr_C03", "Gen_C03_pure", ["-DGLM_FORCE_PURE"]), lambda: run.build_trace("tr_C03", "Gen_C03_purew", ["-DGLM_FORCE_PURE", "-DGLM_FORCE_QUAT_DATA_WXYZ"])] + [lambda l=l: simd(l) for l in C03_LEVELS]
+    stats = par(jobs)
+    trace_cov(run, stats)
+    mods = ["pure", "purew"] + [l[0] for l in C03_LEVELS]
+    gens = [os.path.join(run.dir, "Gen_C03_%s.v" % m) for m in mods]
+    for g in gens:
+        if not os.path.exists(g): open(g, "w").write("(* trace failed *)\nRequire Import List String. From GLMV Require Import Expr.\nDefinition catalogue : list (string * tree) := nil.\n")
+    edges = []
+    def hook():
+        cmd = ["python3", os.path.join(T, "gen_C03_proofs.py"), run.dir, "coqc", "-q", "-w", "none", "-Q", core.COQLIB, "GLMV", "-Q", run.dir, "W"]
+        rc, out, err, dt = core.sh(cmd, timeout=900)
+        run.logonly("== gen_C03_proofs rc=%d %.1fs" % (rc, dt), out[-3000:], err[-2000:])
+        if rc != 0:
+            run.broken.append({"what": "the list of entries to compare by proof could not be computed (catalogues incomplete)", "detail": (err or out)[-2000:]})
+        for l in out.split("\n"):
+            m = re.match(r"EDGE (\w+) -> (\w+) : (\d+) entries", l)
+            if m: edges.append((m.group(1), m.group(2), int(m.group(3))))
+        return [os.path.join(run.dir, "P_C03_%s.v" % e) for e in C03_EDGES if os.path.exists(os.path.join(run.dir, "P_C03_%s.v" % e))]
+    run.prove(gens, ["C03/A_C03_defs.v", "C03/P_C03_tac.v"], [], "C03/Properties_C03.v", timeout=1500, hook=hook)
+    run.cov["instruction_set_levels"] = [l[0] for l in C03_LEVELS]
+    run.cov["entries_compared_by_proof_per_edge"] = dict(("%s->%s" % (a, b), n) for a, b, n in edges)
+    # 2. hardware: one operation table built pure and at every level, compared with the tolerances the property states
+    src = os.path.join(core.VERIF, "tools", "oracle", "oracle_C03.cpp"); S = ["-DGLM_FORCE_DEFAULT_ALIGNED_GENTYPES", "-DGLM_FORCE_INTRINSICS"]
+    builds = [("pure", ["-DGLM_FORCE_PURE"]), ("purew", ["-DGLM_FORCE_PURE", "-DGLM_FORCE_QUAT_DATA_WXYZ"])] + [(n, S + rfl) for n, tfl, rfl in C03_LEVELS]
+    seeds = [run.seed] if run.tier == "quick" else [run.seed, run.seed + 1, run.seed + 2]
+    def tab(b):
+        name, fl = b; exe = os.path.join(run.dir, "table_" + name); ok, err = run.build_cpp(src, exe, fl, opt="-O1")
+        if not ok: return name, None, err
+        outs = []
+        for sd in seeds:
+            f = os.path.join(run.dir, "table_%s_%d.txt" % (name, sd)); rc, out, e2, dt = core.sh("%s table %d %s > %s" % (exe, sd, run.tier, f), timeout=1200)
+            if rc != 0: return name, None, e2
+            outs.append(f)
+        return name, outs, None
+    res = dict((n, (o, e)) for n, o, e in par([lambda b=b: tab(b) for b in builds]))
+    fails = []; lanes = 0; rows = 0; cmps = []
+    for name, (outs, err) in res.items():
+        if outs is None:
+            run.broken.append({"what": "the operation table does not build / run under %s (an operation does not compile at this instruction-set level)" % name, "detail": (err or "")[-2000:]}); continue
+        if name in ("pure", "purew"): continue
+        ref = res["purew" if name.endswith("w") else "pure"][0]
+        if ref is None: continue
+        cmps += [(name, a, b) for a, b in zip(ref, outs)]
+    def cmp1(c):
+        name, a, b = c; return (name,) + tuple(core.sh(["python3", os.path.join(core.VERIF, "tools", "oracle", "cmp_C03.py"), a, b, name], timeout=1200))
+    for name, rc, out, e2, dt in par([lambda c=c: cmp1(c) for c in cmps]):
+        for l in out.split("\n"):
+            if l.startswith("FAIL "):
+                d = dict(re.findall(r'(\w+)=("[^"]*"|\S+)', l[5:])); d = {k: v.strip('"') for k, v in d.items()}; d["line"] = l; d["variant"] = name; fails.append(d)
+            elif l.startswith("TOTAL "):
+                m = re.search(r"rows=(\d+).*lanes=(\d+)", l)
+                if m: rows = int(m.group(1)); lanes += int(m.group(2))
+        if rc not in (0, 1): run.broken.append({"what": "table comparison failed for %s" % name, "detail": (e2 or out)[-1500:]})
+    # 3. rounding to integer on every binary32 value (the ties that the real-number theorem round4 leaves out)
+    rsrc = os.path.join(core.VERIF, "tools", "oracle", "oracle_C03_round.cpp"); rcases = 0
+    def rnd(isa):
+        exe = os.path.join(run.dir, "round_" + isa.replace(".", "")); ok, err = run.build_cpp(rsrc, exe, S + ["-fopenmp", "-m" + isa], opt="-O2")
+        if not ok: return isa, None, err
+        return isa, run.run_oracle(exe, ["sweep", run.seed, "thorough"]), None
+    for isa, r, err in par([lambda i=i: rnd(i) for i in ("sse2", "sse4.1", "avx2")]):
+        if r is None: run.broken.append({"what": "oracle_C03_round does not build with -m" + isa, "detail": (err or "")[-1500:]}); continue
+        f2, st, sm = r
+        for f in f2: f["class"] = isa + ": " + f.get("class", ""); f["variant"] = isa
+        fails += f2; rcases += sum(int(x.get("cases", 0)) for x in st.values()); run.samples += sm[:1]
+    run.cov["oracle_cases"] = lanes + rcases; run.cov["oracle_table_lanes_compared"] = lanes; run.cov["oracle_rounding_patterns"] = rcases
+    run.cov["oracle_functions_failing"] = sorted(set(f.get("fn", "?") for f in fails))[:40]
+    run.fails = run.triage(fails)
+    run.assumptions = ["SemR: every traced operation denotes its exact real function (rcp = 1/x, rsqrt = 1/sqrt x, fma = a*b+c, min/max = the smaller/larger real, CopySign takes the sign of a real): two kernels with the same meaning differ only by rounding; identical trees (decided by computation) execute the same IEEE operations on the same operands and are bit-identical",
+                       "simd_shim.hpp models each x86 intrinsic GLM uses lane by lane (mask-and/andnot/or as a branch on the comparison; sign-bit masks as FAbs / CopySign / Neg; dp_ps and hadd_ps in the order the Intel SDM gives); validated on every run against the same entries built with the compiler's intrinsics on generated inputs (bit-exact, %d trials)" % run.cov.get("translator_validation_trials", 0),
+                       "NaN operands and the sign of zero are outside the theorems (minps/maxps and std::fmin differ there) and outside the table comparison (GLSL leaves them undefined); the table treats -0 and +0 as the same value",
+                       "integer and double-precision SIMD specialisations (ivec4, uvec4, dvec4, dquat) are not traced: compared by the operation table only",
+                       "round4 is a partial theorem (off the ties); floor4/ceil4/fract4/mod4 at the SSE2..SSSE3 levels use that binary32 values >= 2^23 are integers (hypothesis D_big) and |x/y| < 2^23 (D_mod); all 2^32 binary32 values are run through round/floor/ceil/fract on hardware in this check",
+                       "the 8 * 2^-24 * scale bound on multi-term expressions and the n * 2^-11 bound on lowp approximations are checked on hardware by the table, not proved"]
+    run.samples.append("operation table: %d rows x %d builds (pure, pure+WXYZ, %s), seeds %s; exact rows bit-compared (as IEEE values), multi-term rows within 8*2^-24*scale, lowp rows within n*2^-11" % (rows, len(builds), " ".join(l[0] for l in C03_LEVELS), seeds))
+    return run.finish(TRUST_COMMON + ["simd_shim.hpp (~200 lines): lane-wise model of the x86 intrinsics, validated against the compiler's intrinsics on every run (testing, not proof)",
+                                      "gen_C03_proofs.py: asks Coq which entries are not identical trees and writes one lemma statement per such entry with a fixed tactic (cannot make a false lemma pass)",
+                                      "oracle_C03.cpp + cmp_C03.py (operation table, pure against every instruction-set level) and oracle_C03_round.cpp (all 2^32 binary32 values): violation search and the only check of the rounding bounds"],
+                      "theorems: 91 traced operations x 10 SIMD configurations, all real inputs of each entry's domain; oracle: operation table on a generated corpus under 12 builds, rounding functions on every binary32 value",
+                      CHECKER)
+
+
 # ------------------------------------------------------------------------------------------ C02
 def run_C02(run):
     kinds = [("f32", "tf32"), ("i32", "ti32")]
@@ -632,7 +738,7 @@ def run_C20(run):
                       CHECKER)
 
 
-TABLE = {"C20": run_C20, "C15": run_C15, "C11": run_C11, "C16": run_C16, "C19": run_C19, "C06": run_C06, "C14": run_C14, "C18": run_C18, "C05": run_C05, "C07": run_C07, "C01": run_C01, "C13": run_C13, "C09": run_C09, "C04": run_C04, "C02": run_C02, "C10": run_C10, "C08": run_C08, "C17": run_C17, "C12": run_C12}
+TABLE = {"C03": run_C03, "C20": run_C20, "C15": run_C15, "C11": run_C11, "C16": run_C16, "C19": run_C19, "C06": run_C06, "C14": run_C14, "C18": run_C18, "C05": run_C05, "C07": run_C07, "C01": run_C01, "C13": run_C13, "C09": run_C09, "C04": run_C04, "C02": run_C02, "C10": run_C10, "C08": run_C08, "C17": run_C17, "C12": run_C12}
 
 
 def replay(pid, path):
